@@ -63,37 +63,68 @@ def has_const_str(prov, op, text):
     return False
 
 
+STOPS = (r"AsyncTempFile::(path|file)$",)
+
+
+def _org(facts, b, op):
+    from ..interproc import origins_ip
+    return origins_ip(facts, b, op, stop_at=STOPS)
+
+
+def _calls(org):
+    return [o[1] for o in org if o[0] == "call"]
+
+
+def _scratch_handle(facts, b, op):
+    """operand is (only) AsyncTempFile::file(x) with x (only) from AsyncTempFile::new — resolved through
+    helper parameters and captures"""
+    org = _org(facts, b, op)
+    cs = _calls(org)
+    if not cs or len(cs) != len(org) or not all(x.matches(r"AsyncTempFile::file$") for x in cs):
+        return False
+    for x in cs:
+        o2 = _org(facts, x.body, x.args[0])
+        c2 = _calls(o2)
+        if not c2 or len(c2) != len(o2) or not all(y.matches(r"AsyncTempFile::new$") for y in c2):
+            return False
+    return True
+
+
 def classify_site(facts, b, c):
-    """role of one mutating call site, or (None, reason)."""
-    prov = Prov(b, stop_at=(r"AsyncTempFile::(path|file)$",))
+    """role of one mutating call site, or (None, reason). Operand provenance is resolved through the
+    parameters of local helper functions and the captures of closures / async blocks."""
+    prov = Prov(b, stop_at=STOPS)
     nm = c.name
     if re.search(r"async_std::fs::File::create$", nm):
         a = c.args[0]
-        ok = derives_from_call(prov, a, r"^std::env::temp_dir$")
-        tainted = any(o[0] in ("param", "upvar") for o in prov.origins_op(a))
+        org = _org(facts, b, a)
+        ok = any(x.matches(r"^std::env::temp_dir$") for x in _calls(org))
+        tainted = any(o[0] in ("param", "upvar") for o in org)
         if ok and not tainted and re.search(r"AsyncTempFile::new", b.id):
             return ("scratch-create", None)
         return (None, "File::create on a path that is not (only) std::env::temp_dir()+uuid inside AsyncTempFile::new")
     if re.search(r"WriteExt::(write_all|flush|close)$|File::sync_(all|data)$", nm):
-        a = c.args[0]
-        if derives_from_call(prov, a, r"AsyncTempFile::file$"):
-            recv = [x for x in origin_calls(prov, a) if x.matches(r"AsyncTempFile::file$")]
-            if len(recv) == len(origin_calls(prov, a)) and all(derives_from_call(prov, r.args[0], r"AsyncTempFile::new$") for r in recv):
-                kind = "scratch-write" if nm.endswith("write_all") else ("scratch-flush" if nm.endswith("flush") else ("scratch-close" if nm.endswith("close") else "scratch-sync"))
-                return (kind, None)
+        if _scratch_handle(facts, b, c.args[0]):
+            kind = "scratch-write" if nm.endswith("write_all") else ("scratch-flush" if nm.endswith("flush") else ("scratch-close" if nm.endswith("close") else "scratch-sync"))
+            return (kind, None)
         return (None, "%s on something that is not the scratch file" % nm.split("::")[-1])
     if re.search(r"async_std::fs::rename$", nm):
-        srcs = origin_calls(prov, c.args[0])
-        src_ok = bool(srcs) and all(x.matches(r"AsyncTempFile::path$") and derives_from_call(prov, x.args[0], r"AsyncTempFile::new$") for x in srcs) \
-            and len(srcs) == len(prov.origins_op(c.args[0]))
-        dst = prov.origins_op(c.args[1])
-        dst_ok = bool(dst) and all(o[0] == "upvar" and o[1] == "path" for o in dst)
-        if src_ok and dst_ok and re.search(INSERT_MAP, b.id):
+        so = _org(facts, b, c.args[0])
+        srcs = _calls(so)
+        src_ok = bool(srcs) and len(srcs) == len(so) and all(x.matches(r"AsyncTempFile::path$") for x in srcs)
+        if src_ok:
+            for x in srcs:
+                o2 = _org(facts, x.body, x.args[0])
+                c2 = _calls(o2)
+                src_ok = src_ok and bool(c2) and len(c2) == len(o2) and all(y.matches(r"AsyncTempFile::new$") for y in c2)
+        dst = _org(facts, b, c.args[1])
+        # the destination must be the `path` argument of InsertReferencesProcessor::map (the file being processed)
+        dst_ok = bool(dst) and all(o[0] == "param" and o[1] == 1 and len(o) > 2 and re.search(r"InsertReferencesProcessor as .*::map$", o[2]) for o in dst)
+        if src_ok and dst_ok:
             return ("publish", None)
         return (None, "rename whose source is not the scratch path or whose destination is not the file being processed")
     if re.search(r"^std::fs::remove_file$", nm):
         a = c.args[0]
-        p = op_place(a)
         ok = False
         if re.search(r"AsyncTempFile as std::ops::Drop>::drop$", b.id):
             org = prov.origins_op(a)
@@ -183,17 +214,65 @@ def examining_switches(body, prov, call):
         org = prov.origins(place["l"])
         if any(o[0] == "call" and o[1].bb == call.bb for o in org):
             out.append((bb, arms.get(1, otherwise), arms.get(0, otherwise)))
+    # `.is_ok()` / `.is_err()` tests
+    from ..common import trace_bool, bool_switch_targets
+    for bb in sorted(body.reachable_blocks()):
+        t = body.term(bb)
+        if t["k"] != "switch":
+            continue
+        k, pl, neg = trace_bool(body, t["discr"])
+        if k == "call" and pl.matches(r"Result::<.*>::is_(ok|err)$") and pl.args:
+            org = prov.origins_op(pl.args[0])
+            if any(o[0] == "call" and o[1].bb == call.bb for o in org):
+                tt, ft = bool_switch_targets(body, bb)
+                if neg:
+                    tt, ft = ft, tt
+                if pl.matches(r"is_ok$"):
+                    out.append((bb, ft, tt))
+                else:
+                    out.append((bb, tt, ft))
     return out
 
 
+_WRAP = {}
+
+
+def wrappers(facts):
+    """local helper functions that perform storage steps on their arguments: fn id -> sorted list of roles.
+    (an `async fn` helper's steps are in its coroutine body; they are attributed to the fn)"""
+    k = id(facts)
+    if k in _WRAP:
+        return _WRAP[k]
+    out = {}
+    for (b, c) in mutating_sites(facts):
+        owner = b
+        while owner is not None and owner.kind not in ("Fn", "AssocFn"):
+            owner = facts.body(owner.parent) if owner.parent else None
+        if owner is None:
+            continue
+        if re.search(INSERT_MAP.replace(r"::\{closure#0\}$", "$"), owner.id) or re.search(r"AsyncTempFile::|AsyncTempFile as", owner.id) or \
+                re.search(r"Context::(cache_next_reference_id|read_cached_next_reference_id)$", owner.id):
+            continue
+        role, why = classify_site(facts, b, c)
+        out.setdefault(owner.id, set()).add(role or "unknown")
+    _WRAP[k] = {f: sorted(r) for f, r in out.items()}
+    return _WRAP[k]
+
+
 def storage_ops(facts, body):
-    """(role, Call) of the storage operations performed in `body` (the insert map coroutine)."""
+    """(role, Call) of the storage operations performed in `body` (the insert map coroutine), including
+    calls to single-role local wrappers"""
     out = []
+    wr = wrappers(facts)
     for c in body.calls:
         if c.matches(r"AsyncTempFile::new$"):
             out.append(("scratch-create", c))
             continue
         if re.search(r"::\{closure#\d+\}$", c.name) or c.matches(r"::poll$"):
+            continue
+        if c.name in wr:
+            roles = wr[c.name]
+            out.append((roles[0] if len(roles) == 1 else "composite:" + "+".join(roles), c))
             continue
         if any(fsapi.classify(n) == "mutating" for n in c.names()):
             role, why = classify_site(facts, body, c)
